@@ -23,14 +23,15 @@ void same_function(const std::string &key, const R &r, const std::vector<Real> &
 }
 
 template <size_t oa, size_t ob>
-void binary_case(size_t n, std::pair<size_t, size_t> wa) {
+void binary_case(size_t n, std::pair<size_t, size_t> wa, std::vector<std::pair<size_t, size_t>> wbs = {}) {
+  if (wbs.empty()) wbs = windows(n);
   auto &E = Engine::get();
   auto g = gridpoints(n);
   Grid<Real> grid(g);
   Real x = Real::var("x");
   auto a = mkspline<oa>(grid, wa.first, wa.second, "a");
   bool first = true;
-  for (auto wb : windows(n)) {
+  for (auto wb : wbs) {
     auto b = mkspline<ob>(grid, wb.first, wb.second, "b");
     auto A = [&](size_t gi) { return piece_at(a, g, gi, x); };
     auto B = [&](size_t gi) { return piece_at(b, g, gi, x); };
@@ -175,7 +176,56 @@ void add_rest(std::vector<Case> &cases) {
         cases.push_back({"lincomb/o" + std::to_string(o) + "/n" + std::to_string(n) + "/w" + W(w0) + "," + W(w1), [=] { lincomb_case<o>(n, w0, w1); }});
   if constexpr (o > 0) add_rest<o - 1>(cases);
 }
-#ifdef FIXED_GRID
+// linearCombination over k splines (k beyond the 3 of lincomb_case) with sampled windows; the same spline may occur twice
+template <size_t o>
+void lincomb_many_case(size_t n, size_t k, unsigned long seed) {
+  auto g = gridpoints(n);
+  Grid<Real> grid(g);
+  Real x = Real::var("x");
+  auto ws = windows_sample(n, k + 7, seed);
+  std::vector<Spline<Real, o>> S;
+  std::vector<Real> C;
+  for (size_t i = 0; i < k; i++) {
+    auto w = ws[(i * 5 + seed) % ws.size()];
+    S.push_back(mkspline<o>(grid, w.first, w.second, "s" + std::to_string(i) + "_"));
+    C.push_back(Real::var("k" + std::to_string(i)));
+  }
+  if (k >= 4 && seed % 2) S[k - 1] = S[1];  // a repeated member
+  auto expect = [&](size_t gi) {
+    Real r(0);
+    for (size_t i = 0; i < k; i++) r = r + C[i] * piece_at(S[i], g, gi, x);
+    return r;
+  };
+  same_function("lc-many", bspline::linearCombination(C, S), g, n, x, expect);
+  same_function("lc-many-iter", bspline::linearCombination(C.begin(), C.end(), S.begin(), S.end()), g, n, x, expect);
+}
+#ifdef LARGE
+// large structural sizes on the fixed rational grid (coefficients, scalars and x symbolic): sampled window pairs of a LARGE-point
+// grid, scalar and aliasing forms on every window, linear combinations of up to LCMANY splines
+#ifndef LCMANY
+#define LCMANY 9
+#endif
+#ifndef NSAMPLE
+#define NSAMPLE 8
+#endif
+template <size_t oa, size_t ob>
+void add_bin_large(std::vector<Case> &cases) {
+  auto wbs = windows_sample(LARGE, NSAMPLE, 8 + oa);
+  for (auto wa : windows_sample(LARGE, NSAMPLE, 7 + ob))
+    cases.push_back({"bin-large/o" + std::to_string(oa) + "x" + std::to_string(ob) + "/n" + std::to_string(LARGE) + "/wa" + W(wa), [=] { binary_case<oa, ob>(LARGE, wa, wbs); }});
+}
+void hx_cases(std::vector<Case> &cases) {
+  add_bin_large<1, 1>(cases);
+  add_bin_large<2, 1>(cases);
+  add_bin_large<0, 2>(cases);
+  cases.push_back({"scalar-large/o1/n" + std::to_string(LARGE), [=] { scalar_case<1>(LARGE); }});
+  cases.push_back({"alias-large/o1/n" + std::to_string(LARGE), [=] { alias_case<1>(LARGE); }});
+  for (size_t k = 4; k <= LCMANY; k++)
+    for (unsigned long seed = 1; seed <= 2; seed++)
+      cases.push_back({"lincomb-many/o1/n" + std::to_string(LARGE) + "/k" + std::to_string(k) + "/s" + std::to_string(seed), [=] { lincomb_many_case<1>(LARGE, k, seed); }});
+  for (size_t k = 4; k <= 6; k++) cases.push_back({"lincomb-many/o2/n7/k" + std::to_string(k), [=] { lincomb_many_case<2>(7, k, 3); }});
+}
+#elif defined(FIXED_GRID)
 // high orders on a fixed irregular rational grid (coefficients, scalars and x symbolic)
 static constexpr std::array<size_t, 4> HO{4, 6, 9, 10};
 template <size_t... I>
